@@ -234,7 +234,7 @@ def run(ctx):
         rets = [f.unwrap(f.N[r['kids'][0]]).get('v') for r in f.cfg.returns()]
         ctx.ob('FORMAT-LISTS', cnt, rets == [alen], f.loc(f.body), '%s returns %s, table has %d rows' % (cnt, rets, alen), rets)
     f = prog.fn('psf_get_format_info', 'command.c')
-    used = {f.s(n['kids'][0]) for n in f.walk() if n['k'] == 'ArraySubscriptExpr'}
+    used = {f.s(n['kids'][0]) for n in f.walk() if n['k'] == 'ArraySubscriptExpr'} | {n['n'] for n in f.walk() if n['k'] == 'DeclRefExpr' and n.get('dk') == 'global'}
     ctx.ob('FORMAT-LISTS', 'psf_get_format_info:tables', {'major_formats', 'subtype_formats'} <= used, f.loc(f.body), 'tables searched: %s' % sorted(used), sorted(used))
     bd = Bounds(prog, f, eff)
     for n in f.walk():
